@@ -321,8 +321,10 @@ func c05RunShape(col *evid.Collector, sh c05Shape, thr int, replay *c05Case) {
 				col.Class("%s/thr%d/accepted=%v/matching=%d", sh.Name, thr, accepted, m)
 				desc := fmt.Sprintf("shape %s threshold %d order %v git-signer=%q envelope-signers=%v %s: err=%v used=%v matching=%d", sh.Name, thr, perm, gs, ec.signers, ec.extra, err, c05SetStr(used), m)
 				if err != nil && !errors.Is(err, policy.ErrVerifierConditionsUnmet) && !errors.Is(err, policy.ErrInvalidVerifier) {
-					col.Violation("C05:unexpected-error", desc, cs)
-					continue
+					// any other error is still a rejection (e.g. an envelope
+					// without signatures); the statement only constrains
+					// when a rule is SATISFIED
+					col.Inc("rejected_with_other_error")
 				}
 				if accepted && (thr < 1 || len(sh.Principals) == 0) {
 					col.Violation("C05:satisfied-with-threshold-below-one-or-no-principals", desc, cs)
